@@ -170,7 +170,8 @@ def rules(ck, P):
             stats["violation"] += 1
             chain = P.chain(seen, fq)
             ck.violation("R-STREAM-TOTAL", s.key, "panic-capable %s site `%s` in a stream (reached from %s) is not classified: the stream has no error channel, so a site that "
-                         "depends on the requested box vs. the stored coverage makes valid requests fail" % (s.kind, s.desc, chain[0].split(">::")[-1]), s.loc)
+                         "depends on the requested box vs. the stored coverage makes valid requests fail%s" % (
+                             s.kind, s.desc, chain[0].split(">::")[-1], " (reviewed entry lapsed: %s)" % (lapsed or census.entry_lapsed(t19.get(s.key) or {}, s)) if (lapsed or s.key in t19) else ""), s.loc)
     ck.anchor("R-STREAM-TOTAL", "census size", n_sites, 60)
     ck.note("R-STREAM-TOTAL: %d reachable bodies, %d sites: %s" % (len(seen), n_sites, stats))
 
